@@ -125,6 +125,20 @@ func (w *c07World) c07Msg(op c07Op) sdk.Msg {
 }
 
 // the signers the REAL codec derives
+var c07HeldSigners, c07HeldCopy [][]byte
+
+func c07SameBytes(a, b [][]byte) bool {
+	if len(a) != len(b) {
+		return false
+	}
+	for i := range a {
+		if string(a[i]) != string(b[i]) {
+			return false
+		}
+	}
+	return true
+}
+
 func (w *c07World) c07Signers(msg sdk.Msg) (signers [][]byte, ok bool) {
 	defer func() {
 		if r := recover(); r != nil {
@@ -575,6 +589,19 @@ func c07Run(e *Env) {
 			}
 			// 1. signer derivation by the real codec
 			signers, sok := w.c07Signers(msg)
+			// the signer sets of all messages of a transaction are derived one after the other and held together
+			// (Tx.GetSigners): a result must not be overwritten by a later derivation
+			if c07HeldSigners != nil && !c07SameBytes(c07HeldSigners, c07HeldCopy) {
+				e.Stats.ImplFailures = append(e.Stats.ImplFailures, ImplFailure{Case: c, Step: len(steps) - 1, Monitor: "derived-signers-overwritten-by-a-later-derivation",
+					Detail: fmt.Sprintf("signers derived for the previous message read %x when derived and %x after the next derivation", c07HeldCopy, c07HeldSigners)})
+			}
+			c07HeldSigners, c07HeldCopy = nil, nil
+			if sok {
+				c07HeldSigners = signers
+				for _, s := range signers {
+					c07HeldCopy = append(c07HeldCopy, append([]byte{}, s...))
+				}
+			}
 			sterm := "None"
 			if sok {
 				var ss []string
